@@ -21,6 +21,7 @@ def run(repo, run, tier):
     boolean_functions(repo, run)
     ordering_key(repo, run)
     in_step_test(repo, run, m)
+    attributes_and_kinds(repo, run)
 
 
 def _event_loop(m):
@@ -320,3 +321,54 @@ def in_step_test(repo, run, m):
         run.report("C07.5", DS, iff if isinstance(iff, ast.If) else tp[0], "the in-step test is not the mirrored pair start<=root<=end / end<=root<=start selected by the sign of the step: "
                                                                           "roots outside the step are accepted or roots inside it rejected in one direction",
                    text="in-step test branches: %s | %s" % (sorted(body_p), sorted(else_p)))
+
+
+def attributes_and_kinds(repo, run):
+    rid = run.rule("C07.6", "prepare_events copies each event's own is_terminal / direction / requires_dstate into entry i of the per-event arrays; the sample "
+                            "offsets around a root are signed durations along the step (t_root -/+ (t_next - t_prev) * eps), so 'before' and 'after' follow the "
+                            "direction of integration", floor=6)
+    pe = repo.get(DS, "prepare_events")
+    run.analysed_fn(DS, pe)
+    loops = [st for st in ast.walk(pe) if isinstance(st, ast.For) and isinstance(st.iter, ast.Call) and fname(st.iter) == "enumerate" and src(st.iter.args[0]) == "events"]
+    if len(loops) != 1:
+        raise AnalysisError("prepare_events: `for i, event in enumerate(events)` not found")
+    lp = loops[0]
+    i, ev = lp.target.elts[0].id, lp.target.elts[1].id
+    for attr in ("is_terminal", "direction", "requires_dstate"):
+        sts = [st for st in ast.walk(lp) if isinstance(st, ast.Assign) and isinstance(st.targets[0], ast.Subscript) and src(st.targets[0].value) == attr]
+        ok = len(sts) == 1 and src(sts[0].targets[0].slice) == i
+        if ok:
+            v = sts[0].value
+            if isinstance(v, ast.Call) and fname(v) in ("bool", "int") and v.args:
+                v = v.args[0]
+            ok = src(v) == "%s.%s" % (ev, attr)
+            g = sts[0]._parent
+            ok = ok and isinstance(g, ast.If) and src(g.test) == "hasattr(%s, '%s')" % (ev, attr)
+        run.judged(rid, "prepare_events: %s" % ([src(s) for s in sts]), ok=ok)
+        if not ok:
+            run.report("C07.6", DS, sts[0] if sts else lp, "entry i of `%s` is not the event's own `%s` attribute (guarded by hasattr): events would be filtered or terminated by "
+                                                           "another event's setting" % (attr, attr), text="prepare_events binding of %s" % attr)
+    fn = repo.get(DS, "handle_events")
+    sd = Seeds(params={}, names={"t_prev": "T", "t_next": "T", "roots": "Seq(T)", "t_root": "T", "receptive_field": "M"},
+               calls={"D.epsilon": "M"})
+    ke = KindEngine(fn, sd, disciplines=("AFF", "DIR", "UNIT"))
+    # comprehension variables are not walked by the flow-insensitive inference: seed t_root by name (it iterates `roots`)
+    vs = ke.check()
+    n = 0
+    for c in [c for c in ast.walk(fn) if isinstance(c, ast.Call) and isinstance(c.func, ast.Subscript) and src(c.func.value) == "ev_f" and c.args]:
+        a = c.args[0]
+        n += 1
+        if isinstance(a, ast.BinOp):
+            k = ke.kind(a.right)
+            ok = k == "D" and isinstance(a.op, (ast.Add, ast.Sub)) and ke.kind(a.left) == "T"
+            run.judged(rid, "sample point %s  [offset kind %s]" % (src(a)[:90], k), ok=ok)
+            if not ok:
+                run.report("C07.6", DS, a, "the sample offset around a root has kind %s, not a signed duration along the step: for backward integration 'before' and 'after' the "
+                                           "crossing are swapped (or the offset has no time unit), so the crossing direction is classified against the direction of integration" % (k,))
+        else:
+            run.judged(rid, "sample point %s" % src(a), ok=ke.kind(a) == "T")
+    for v in vs:
+        run.judged(rid, "handle_events: %s" % src(v.node)[:80], ok=False)
+        run.report("C07.6", DS, v.node, "%s discipline: %s" % (v.disc, v.why))
+    if n == 0:
+        raise AnalysisError("handle_events: no event sample evaluations found")
